@@ -53,9 +53,44 @@ def evaluate(ctx, cases, prefix):
     return tuple(sorted(x) for x in out) if ok else None
 
 
+def evaluate_quantum(ctx, cases, prefix):
+    """SemQ (the common semantics with abstract quantum events) vs the real Executor on
+    programs that mix classical instructions with gates / rotations / measurements.
+    Returns (mismatch, open_) index lists or None."""
+    coq_cases, kept = [], []
+    for c in cases:
+        c["results"] = H.run_case(c)
+        if c["results"] is None:
+            continue
+        kept.append(c)
+        coq_cases.append(H.cq_qcase(c, c["results"]))
+    cases[:] = kept
+    files = {}
+    for k in range(0, len(cases), SHARD):
+        fn = f"cases_{prefix}_{k // SHARD}.v"
+        H.write_qcase_file(os.path.join(ctx.build, fn), coq_cases[k:k + SHARD])
+        files[fn] = k
+    out = ([], [])
+    ok = True
+    for fn, res in ctx.run_case_files(list(files)).items():
+        base = files[fn]
+        ls = H.parse_lists(res.out) if res.ok else []
+        if not res.ok or len(ls) != 2:
+            ctx.gen_obligation(f"correspondence file {fn} evaluates", False, (res.err or res.out)[-300:])
+            ok = False
+            continue
+        for j in range(2):
+            out[j].extend(base + i for i in ls[j])
+    return tuple(sorted(x) for x in out) if ok else None
+
+
 def case_json(c):
-    return dict(cap=c["cap"], fuel=c["fuel"], subs=c["subs"], tag=c.get("tag", ""),
-                implementation=[dict(out=r["out"], pc=r["pc"], state=r["state"]) for r in c.get("results", [])])
+    d = dict(cap=c["cap"], fuel=c["fuel"], subs=c["subs"], tag=c.get("tag", ""),
+             implementation=[dict(out=r["out"], pc=r["pc"], state=r["state"], events=r.get("events", []))
+                             for r in c.get("results", [])])
+    if "script" in c:
+        d["script"] = c["script"]
+    return d
 
 
 def generate(ctx, n_random, n_aimed, fuel):
@@ -80,6 +115,8 @@ def run(ctx):
                 "memory registers and arrays, unit module.  non-trivial = at least 3 instructions and the reference "
                 "semantics defined on the whole case; distinct = distinct (cap, subroutines)")
     ctx.props("C04")
+    # bridges from the private interpreters of C03/C05/C08/C10 to Sem / SemQ
+    ctx.props("C04_bridges")
     quick = ctx.tier == "quick"
     if not quick:
         coqchk(ctx)
@@ -90,6 +127,9 @@ def run(ctx):
                        "netqasm Executor (sub-classed only for the handler-call bound, _do_wait -> blocked, recording the "
                        "final pc), reads _registers/_app_arrays/_shared_memories/_qubit_unit_modules/_program_counters; "
                        "the fault line is parsed from the 'At line N:' prefix of the raised error")
+    ctx.assume.append("quantum stream: the harness executor fills the extension points _do_single_qubit_instr/_rotation/"
+                      "_do_two_qubit_instr/_do_meas with event recorders (scripted measurement outcomes); what a gate does "
+                      "to a quantum state is outside C04")
     ctx.trusted.append("correspondence and oracle evaluated by vm_compute inside coqc on generated cases_*.v "
                        "(Exec.ExecCheck: check_exec = model vs implementation, check_sem = reference semantics vs implementation)")
     ctx.assume.append("environment contract: nothing else writes the application's arrays while a subroutine runs, so an "
@@ -127,6 +167,22 @@ def run(ctx):
         ctx.samples = [case_json(c) for c in (cases[0], cases[len(H.FAULT_TARGETS) * 3], cases[-1], cases[-2])]
         for s in ctx.samples:
             s.pop("implementation", None)
+    # quantum stream: SemQ (target of the C05/C08/C10 bridges) vs the real Executor
+    qcases = [H.gen_qcase(ctx.rng, fuel=fuel) for _ in range(500 if quick else 10000)]
+    qres = evaluate_quantum(ctx, qcases, "quantum")
+    if qres is not None:
+        qopen = set(qres[1])
+        for i, c in enumerate(qcases):
+            ctx.note_case((c["cap"], json.dumps(c["subs"]), json.dumps(c["script"])),
+                          nontrivial=(sum(len(p) for p in c["subs"]) >= 3 and i not in qopen))
+        for i in qres[0]:
+            ctx.violation("common semantics with quantum events (SemQ.qrun) and the real Executor disagree inside the domain",
+                          case_json(qcases[i]), key=None)
+        ctx.coverage["quantum_stream_cases"] = len(qcases)
+        ctx.coverage["quantum_stream_mismatches"] = len(qres[0])
+        ctx.coverage["quantum_stream_open"] = len(qres[1])
+        ctx.coverage["quantum_stream_events"] = sum(len(c["results"][-1]["events"]) for c in qcases)
+        ctx.samples.append(case_json(qcases[0]) | {"implementation": None})
     if ctx.broken and not ctx.violations:
         search(ctx, fuel)
     ctx.finish()
@@ -136,12 +192,14 @@ def coqchk(ctx):
     """thorough tier: re-check the compiled proofs with the independent checker"""
     import subprocess
     import vlib
-    r = subprocess.run(["timeout", "900", "coqchk", "-silent", "-o", "-Q", vlib.COQ, "NQ", "NQ.Proofs.ExecProofs"],
+    mods = ["NQ.Proofs.ExecProofs", "NQ.Proofs.Bridge_Asm", "NQ.Proofs.Bridge_AsmChain", "NQ.Proofs.Bridge_Nv",
+            "NQ.Proofs.Bridge_Sdk", "NQ.Proofs.Bridge_Epr"]
+    r = subprocess.run(["timeout", "1500", "coqchk", "-silent", "-o", "-Q", vlib.COQ, "NQ"] + mods,
                        capture_output=True, text=True)
     out = r.stdout + r.stderr
     ok = r.returncode == 0 and "* Axioms: <none>" in out
-    ctx.gen_obligation("coqchk -o NQ.Proofs.ExecProofs: accepted, Axioms: <none>", ok, out[-300:])
-    ctx.checker_cmds.append("coqchk -silent -o -Q coq NQ NQ.Proofs.ExecProofs")
+    ctx.gen_obligation("coqchk -o ExecProofs + Bridge_*: accepted, Axioms: <none>", ok, out[-300:])
+    ctx.checker_cmds.append("coqchk -silent -o -Q coq NQ " + " ".join(mods))
 
 
 def search(ctx, fuel):
@@ -160,6 +218,14 @@ def search(ctx, fuel):
 def replay(ctx, path):
     rec = json.load(open(path))["replay"]
     case = dict(cap=rec["cap"], fuel=rec["fuel"], subs=rec["subs"], tag=rec.get("tag", "replay"))
+    if "script" in rec:  # a case of the quantum stream
+        case["script"] = rec["script"]
+        qres = evaluate_quantum(ctx, [case], "replay")
+        print("replay: implementation:", json.dumps([dict(out=r["out"], pc=r["pc"], events=r["events"]) for r in case["results"]]))
+        print("replay: (SemQ mismatch in domain, open) =", qres)
+        if qres is None or qres[0]:
+            ctx.violation("SemQ and the real Executor disagree inside the domain", case_json(case))
+        return ctx.finish()
     res = evaluate(ctx, [case], "replay")
     print("replay: implementation:", json.dumps([dict(out=r["out"], pc=r["pc"]) for r in case["results"]]))
     print("replay: (model mismatch, spec mismatch in domain, open) =", res)
